@@ -64,9 +64,9 @@ def skeletons(tier):
     progs.append(("keyword-only-default-only", ko))
     # an attribute that does not exist yet on the object a dotted name resolves to (read guarded), added later
     progs.append(("late-attribute", {
-        "funcs": [mkfunc("R", calls=[call("D")], reads=["cfg.Z?", "Cfg.W?"], rich=False), mkfunc("D", kind="plain", reads=["cfg.Z?"], rich=False)],
+        "funcs": [mkfunc("R", calls=[call("D")], reads=["cfg.Z?", "Cfg.W?", "Cfg.Z?"], rich=False), mkfunc("D", kind="plain", reads=["Cfg.W?"], rich=False)],
         "vars": {}, "classes": {"Cfg": {"X": 1}, "C1": {"Y": 10}}, "bindings": {"cfg": "C1"},
-        "addable_attrs": [["C1", "Z"], ["Cfg", "W"]]}))
+        "addable_attrs": [["C1", "Z"], ["Cfg", "W"], ["Cfg", "Z"]]}))  # the same attribute name is missing on two objects
     # a plain helper living in the package's own __init__.py
     progs.append(("helper-in-package-init", {
         "funcs": [mkfunc("R", calls=[call("K", "pkgattr"), call("D")], rich=False), mkfunc("K", kind="plain", module="i"),
